@@ -224,3 +224,74 @@ VERIF_HARNESS(c12_s4_evict) {
   if (evict && nidle >= 2 && ns) VERIF_REACH("S4 eviction among several idle sessions");
 #endif
 }
+
+/* ---- S5: reference holders hand their reference back: a queued Confirmable that is parked on the session's delay queue
+ * (retransmission timer fires while the session may not send: coap_retransmit -> coap_session_delay_pdu(session, pdu, node)).
+ * A queue node holds one session reference (coap_wait_ack); a held message holds none (the session owns it). */
+VERIF_HARNESS(c12_s5_park_node) {
+  ne_init();
+  VERIF_IN(uint32_t, ref);
+  VERIF_IN(uint16_t, mid);
+  VERIF_IN(uint16_t, mid_other);
+  VERIF_IN(uint8_t, with_other);
+  VERIF_IN_BUF(tok, 4);
+  VERIF_ASSUME(ref >= 1 && ref < 1000 && with_other <= 1 && mid != mid_other);
+  ne_sess.type = COAP_SESSION_TYPE_SERVER;
+  ne_sess.ref = ref;
+  free_calls = 0;
+  coap_queue_t *n = ne_make_node(&ne_sess, ne_make_pdu(COAP_MESSAGE_CON, 1, mid, tok, 4), 2000, 1);   /* takes one reference */
+  n->t = 100;
+  ne_ctx.sendqueue = n;
+  if (with_other) {
+    coap_queue_t *o = ne_make_node(&ne_sess2, ne_make_pdu(COAP_MESSAGE_CON, 1, mid_other, tok, 4), 2000, 0);
+    o->t = 50;
+    n->next = o;
+  }
+  VERIF_ASSERT(ne_sess.ref == ref + 1, "S5 a queued Confirmable holds one session reference");
+  coap_mid_t r = coap_session_delay_pdu(&ne_sess, n->pdu, n);
+  VERIF_ASSERT(r == COAP_PDU_DELAYED, "S5 parking a queued message reports 'delayed'");
+  VERIF_ASSERT(!ne_in_queue(ne_ctx.sendqueue, n), "S5 the parked message has left the send queue");
+  VERIF_ASSERT(ne_sess.delayqueue == n && n->next == NULL && n->session == NULL, "S5 the parked message is now owned by the session's delay queue");
+  VERIF_ASSERT(ne_sess.ref == ref && free_calls == 0, "S5 the reference the queue node held is given back exactly once when the message is parked");
+  VERIF_REACH("S5 end");
+}
+
+/* ---- S6: the I/O loop's temporary reference on a client session is paired with a release on every path (keepalive due / ping
+ * cannot be sent because a Confirmable is in flight / ping sent / nothing due). One client session in the context's table. */
+VERIF_HARNESS(c12_s6_client_loop) {
+  ne_init();
+  VERIF_IN(uint32_t, ref);
+  VERIF_IN(uint64_t, last);
+  VERIF_IN(uint64_t, now);
+  VERIF_IN(uint32_t, ping_tmo);
+  VERIF_IN(uint8_t, con_active);
+  VERIF_IN(uint64_t, last_ping);
+  VERIF_IN(uint64_t, last_pong);
+  VERIF_ASSUME(ref >= 1 && ref <= 3 && ping_tmo <= 600 && con_active <= 1);
+  VERIF_ASSUME(last < (1ull << 40) && now >= last && now - last < (1ull << 31) && last_ping <= last && last_pong <= last);
+  ne_ctx.ping_timeout = ping_tmo;
+  ne_sess.type = COAP_SESSION_TYPE_CLIENT;
+  ne_sess.ref = ref;
+  ne_sess.last_rx_tx = last;
+  ne_sess.last_ping = last_ping;
+  ne_sess.last_pong = last_pong;
+  ne_sess.con_active = con_active;       /* a Confirmable in flight: coap_session_send_ping_lkd() refuses (returns COAP_INVALID_MID) */
+  /* uthash iteration contract: SESSIONS_ITER_SAFE follows hh.next from ctx->sessions */
+  ne_ctx.sessions = &ne_sess;
+  free_calls = 0;
+  coap_socket_t *socks[1];
+  unsigned int ns = 0;
+  (void)coap_io_prepare_io_lkd(&ne_ctx, socks, 1, &ns, now);
+  VERIF_ASSERT(free_calls == 0, "S6 a referenced client session is never freed by the I/O loop");
+  {
+    /* a keepalive ping that went out is a Confirmable waiting in the send queue: its node legitimately holds one reference */
+    unsigned held = 0;
+    coap_queue_t *q;
+    for (q = ne_ctx.sendqueue; q; q = q->next) if (q->session == &ne_sess) held++;
+    VERIF_ASSERT(held <= 1, "S6 at most one keepalive ping is queued per I/O step");
+    VERIF_ASSERT(ne_sess.ref == ref + held, "S6 the I/O loop's temporary session reference is released on every path (keepalive included)");
+  }
+#ifdef WITNESS
+  if (ping_tmo > 0 && last + (uint64_t)ping_tmo * COAP_TICKS_PER_SECOND <= now && con_active) VERIF_REACH("S6 keepalive due but ping refused");
+#endif
+}
